@@ -138,6 +138,7 @@ pub fn view<P: Pay + Send + Sync>(h: &H<P>) -> R<View> {
             heap = Some(a.heap_ptr() as usize);
             counts.push(("Arc::count", Arc::count(a)));
             counts.push(("Arc::strong_count", Arc::strong_count(a)));
+            counts.push(("uniq:Arc::is_unique", a.is_unique() as usize));
             let b = a.borrow_arc();
             counts.push(("ArcBorrow::strong_count", ArcBorrow::strong_count(&b)));
             counts.push(("ArcBorrow::with_arc", b.with_arc(|x| Arc::count(x))));
@@ -175,6 +176,10 @@ pub fn view<P: Pay + Send + Sync>(h: &H<P>) -> R<View> {
             heap = Some(o.with_arc(|a| a.heap_ptr() as usize));
             counts.push(("OffsetArc::strong_count", OffsetArc::strong_count(o)));
             counts.push(("OffsetArc::with_arc", o.with_arc(|a| Arc::count(a))));
+            counts.push((
+                "uniq:OffsetArc::with_arc(is_unique)",
+                o.with_arc(|a| a.is_unique()) as usize,
+            ));
             counts.push((
                 "OffsetArc::borrow_arc",
                 ArcBorrow::strong_count(&o.borrow_arc()),
@@ -754,6 +759,22 @@ impl<'s, P: Pay + Send + Sync> W<'s, P> {
                 );
             }
             for (name, c) in &v.counts {
+                if let Some(api) = name.strip_prefix("uniq:") {
+                    // a non-mutating uniqueness verdict, taken at every step: it must agree with the model's owner count
+                    self.st.counts.bump("uniq_obs.passive");
+                    ensure!(
+                        (*c == 1) == (owners == 1),
+                        "C03,C04",
+                        "uniq",
+                        "after {}: {} through a {} handle says unique={} but {} owning handles exist",
+                        ctx,
+                        api,
+                        kind,
+                        *c == 1,
+                        owners
+                    );
+                    continue;
+                }
                 if !self.light {
                     self.st.counts.bump(&format!("count_obs.{}", name));
                 } else {
